@@ -6,4 +6,5 @@ CONSTANTS
   ShiftAbs = {0, 1, 5, 7, 11, 12, 13, 24}
   JLens = {0, 1, 6, 11, 12, 13, 23}
   JBoth = FALSE
+VIEW View
 INVARIANT Emit
